@@ -50,7 +50,14 @@ func TestC18(t *testing.T) {
 	mon.Register(r, "single", c18Single)
 	rng := r.Rand("c18")
 	chunks := []uint64{1, 2, 3, 5, 8, 64}
-	faults := []string{"", "", "slow-once", "reset-once", "notfound-once", "prefix-once"}
+	faults := []string{"", "", "slow-once", "reset-once", "notfound-once", "prefix-once", "stall-after-prefix-once"}
+	// a peer that sends a valid prefix of a chunk and then goes silent (the request times out with part of the data)
+	for _, chunk := range []uint64{3, 5, 8} {
+		for _, ln := range []int{int(chunk), int(2 * chunk), int(2*chunk) + 1} {
+			mon.Emit(r, "range", c18P{From: 9, Len: ln, Chunk: chunk, Peers: []c18Peer{{Fault: "stall-after-prefix-once"}, {DelayMs: 50}}}, "range")
+			mon.Emit(r, "range", c18P{From: 9, Len: ln, Chunk: chunk, Peers: []c18Peer{{Fault: "stall-after-prefix-once"}, {Fault: "stall-after-prefix-once", DelayMs: 3}, {Real: true}}}, "range")
+		}
+	}
 	// systematic: every range length 1..3*chunk for small chunks against two fixed peer sets
 	for _, chunk := range []uint64{1, 2, 3, 5} {
 		for ln := 1; ln <= int(3*chunk); ln++ {
@@ -155,6 +162,8 @@ func buildHonestWorld(c *mon.Case, p c18P, mainPhase *atomic.Bool) (*simnet.Worl
 					bb.Kind = bReset
 				case "notfound-once":
 					bb.Kind = bNotFound
+				case "stall-after-prefix-once":
+					bb.Kind = bNoClose // all but the last header, then silence with the stream left open
 				case "prefix-once":
 					bb.Kind, bb.K = bPrefix, 1
 				}
